@@ -31,6 +31,10 @@ def _job_runner(job):
     try:
         r = _MOD.run_job(job)
         r.counters["job_seconds"] = r.counters.get("job_seconds", 0) + (time.time() - t0)
+        if isinstance(job, tuple) and job and isinstance(job[0], str):
+            k = "seconds_" + job[0]
+            r.counters[k] = r.counters.get(k, 0) + (time.time() - t0)
+            r.maxima["slowest_job_s"] = max(r.maxima.get("slowest_job_s", 0), time.time() - t0)
         return ("ok", r, None)
     except BaseException as e:  # noqa
         tb = traceback.extract_tb(e.__traceback__)
